@@ -220,6 +220,9 @@ class AnsiString:
         Parameters:
             s - the new string to set
         '''
+        if isinstance(s, AnsiStr):
+            # Its length and characters are those of its text; the raw str value also holds its escape sequences
+            s = s.base_str
         if len(s) > len(self._s):
             if len(self._s) in self._fmts:
                 self._fmts[len(s)] = self._fmts.pop(len(self._s))
@@ -930,6 +933,9 @@ class AnsiString:
             inplace - when True, do the conversion in-place and return self;
                       when False, do the conversion on a copy and return the copy
         '''
+        if isinstance(fillchar, AnsiStr):
+            # Its length and characters are those of its text; the raw str value also holds its escape sequences
+            fillchar = fillchar.base_str
         if len(fillchar) != 1:
             raise ValueError('fillchar must be exactly 1 character in length')
 
@@ -963,6 +969,9 @@ class AnsiString:
             inplace - when True, do the conversion in-place and return self;
                       when False, do the conversion on a copy and return the copy
         '''
+        if isinstance(fillchar, AnsiStr):
+            # Its length and characters are those of its text; the raw str value also holds its escape sequences
+            fillchar = fillchar.base_str
         if len(fillchar) != 1:
             raise ValueError('fillchar must be exactly 1 character in length')
 
@@ -991,6 +1000,9 @@ class AnsiString:
             inplace - when True, do the conversion in-place and return self;
                       when False, do the conversion on a copy and return the copy
         '''
+        if isinstance(fillchar, AnsiStr):
+            # Its length and characters are those of its text; the raw str value also holds its escape sequences
+            fillchar = fillchar.base_str
         if len(fillchar) != 1:
             raise ValueError('fillchar must be exactly 1 character in length')
 
